@@ -15,7 +15,7 @@ theorem mkFrame_eq (b0 : UInt8) (body : Bytes) : Spec.mkFrame b0 body = frameByt
 /-- the specification's table for packet kind `k` is covered by the model's decoder table `tbl`
 (the `propertyMap` of the Go type, plus the two identifiers `getAny` handles inline) — a finite
 check, decided by evaluation for each kind -/
-def tablesAgree (k : Kind) (tbl : PropTable) : Bool :=
+def tablesAgree (k : Nat) (tbl : PropTable) : Bool :=
   propDefs.all fun d =>
     !d.allowed.contains k
     || tbl.lookup d.id == some d.ty
@@ -30,7 +30,7 @@ theorem propDef?_some (id : UInt8) (d : PropDef) (h : propDef? id = some d) : d 
 theorem valInRange_iff (v : WVal) (h : Spec.valInRange v = true) : v.InRange := by
   cases v <;> simp_all [Spec.valInRange, WVal.InRange]
 
-theorem propOk_of_legal (k : Kind) (tbl : PropTable) (hagree : tablesAgree k tbl = true) (o : PropOcc)
+theorem propOk_of_legal (k : Nat) (tbl : PropTable) (hagree : tablesAgree k tbl = true) (o : PropOcc)
     (h : occLegal k o = true) : PropOk tbl o := by
   unfold occLegal at h
   split at h
@@ -68,7 +68,7 @@ theorem lastBin_absent (init : UInt8 → Bytes) (id : UInt8) : ∀ (acc : List P
 string/binary properties occur at most once -/
 theorem bin_not_repeatable : ∀ d ∈ propDefs, d.ty = .bin → d.repeatable = [] := by decide
 
-theorem binFresh_of_legal (k : Kind) (ps : List PropOcc) (hl : propsLegal k ps = true)
+theorem binFresh_of_legal (k : Nat) (ps : List PropOcc) (hl : propsLegal k ps = true)
     (init : UInt8 → Bytes) (hinit : ∀ id, init id = []) :
     ∀ pre o post, ps = pre ++ o :: post → BinFresh (lastBin init) pre o := by
   intro pre o post hsplit hbin
@@ -101,12 +101,12 @@ theorem binFresh_of_legal (k : Kind) (ps : List PropOcc) (hl : propsLegal k ps =
     omega
   · simp at hlo
 
-theorem legal_all (k : Kind) (ps : List PropOcc) (hl : propsLegal k ps = true) : ∀ o ∈ ps, occLegal k o = true := by
+theorem legal_all (k : Nat) (ps : List PropOcc) (hl : propsLegal k ps = true) : ∀ o ∈ ps, occLegal k o = true := by
   simp only [propsLegal, Bool.and_eq_true] at hl
   exact fun o ho => (List.all_eq_true.mp hl.1) o ho
 
 /-- everything `getAny` needs about a legal property list, for a fresh destination -/
-theorem getAny_spec (k : Kind) (tbl : PropTable) (hagree : tablesAgree k tbl = true) (ps : List PropOcc)
+theorem getAny_spec (k : Nat) (tbl : PropTable) (hagree : tablesAgree k tbl = true) (ps : List PropOcc)
     (hl : propsLegal k ps = true) (init : UInt8 → Bytes) (hinit : ∀ id, init id = []) (suf : Bytes)
     (hlen : (ps.flatMap encOcc).length < 268435456) :
     ({ rest := Spec.propSection ps ++ suf, st := .ok } : Buf).getAny tbl (lastBin init) = ({ rest := suf, st := .ok }, ps) := by
